@@ -329,7 +329,8 @@ def do_check(pid, tier, seed):
             ok, lg = build_exe(e)
             if not ok:
                 broken.append('executable:{}: {}'.format(e, lg[-400:].replace('\n', ' | ')))
-    ctx.deep = bool(broken)
+    proof_broken = bool(broken)
+    ctx.deep = False
     os.makedirs(os.path.join(BUILD, 'logs'), exist_ok=True)
     with open(os.path.join(BUILD, 'logs', pid + '.build.log'), 'w') as f:
         f.write(build_log + '\n' + pa_out)
@@ -345,8 +346,8 @@ def do_check(pid, tier, seed):
         tag = 'correspondence:{}'.format(c['unit'])
         if tag not in broken:
             broken.append(tag)
-    if broken and not ctx.deep:
-        # a correspondence broke during the bounded run: search again at depth
+    if broken and not ctx.counterexamples:
+        # a proof or a correspondence broke and the bounded run found no failing input: search again at depth
         ctx.deep = True
         try:
             mod.explore(ctx)
